@@ -40,6 +40,8 @@ FIXED_SPECS = [
     ('array-obj', {'t': 'array', 'x': O({'id': S, 'tags': {'t': 'array', 'x': S}})}, {}),
     ('recursive-list', {'t': 'ref', 'name': 'L'}, {'L': O({'v': N, 'next': {'t': 'anyof', 'xs': [{'t': 'ref', 'name': 'L'}, NULL]}})}),
     ('map-set', O({'m': {'t': 'map', 'k': S, 'v': N}, 's': OPT({'t': 'set', 'x': {'t': 'anyof', 'xs': [S, NULL]}})}), {}),
+    ('union-builtins', {'t': 'anyof', 'xs': [{'t': 'set', 'x': N}, {'t': 'map', 'k': S, 'v': N}, {'t': 'date'}, S]}, {}),
+    ('allof-map', {'t': 'allof', 'xs': [{'t': 'map', 'k': S, 'v': {'t': 'any'}}, {'t': 'map', 'k': {'t': 'any'}, 'v': N}]}, {}),
     ('date-bigint-ta', {'t': 'tuple', 'prefix': [{'t': 'date'}, {'t': 'bigint'}, {'t': 'typedarray', 'name': 'Uint8Array'}], 'rest': None}, {}),
     ('disc-hostile', {'t': 'disc', 'key': 'kind', 'mapping': {'constructor': O({'a': N}), 'toString': O({'b': S}), 'x': O({})}}, {}),
     ('nested-union', O({'u': {'t': 'anyof', 'xs': [O({'k': {'t': 'anyof', 'xs': [C('a'), N]}}), {'t': 'array', 'x': {'t': 'anyof', 'xs': [S, O({'z': B})]}}]}}), {}),
